@@ -61,6 +61,9 @@ theorem reorder_canonical (fx : Fixes) (k : Nat → Nat) (xs : List Nat) (dmax :
     ∃ ys, reorderLoop fx xs [] dmax = .ok ys (dmax - xs.length) ∧ IsCanonicalOrdering k xs ys ∧ ys.Perm xs ∧ ys.length = xs.length :=
   reorderLoop_canonical fx k xs dmax hk hr hd
 
+example : (∀ c ∈ [0x61, 0x301, 0x323, 0x62], combinClass c = some (kcc c)) ∧ kcc 0x301 = 230 ∧ kcc 0x323 = 220 ∧
+    reorderLoop current [0x61, 0x301, 0x323, 0x62] [] 8 = .ok [0x61, 0x323, 0x301, 0x62] 4 := by decide +kernel
+
 /-- the canonical ordering of a string is unique (so "a" canonical ordering is "the" canonical ordering) -/
 theorem canonical_ordering_unique {k : Nat → Nat} {xs ys zs : List Nat}
     (h1 : IsCanonicalOrdering k xs ys) (h2 : IsCanonicalOrdering k xs zs) : ys = zs := canonicalOrdering_unique h1 h2
@@ -191,6 +194,9 @@ length) of code points assigned in Unicode 14.0 other than U+037E.  (Rests on: c
 pair map `_composite_cp`+`isExclusion` = D114 as functions on code points: `pcOf_eq_ucd`.) -/
 theorem nfc_is_uax15_fixed_partial (xs : List Nat) (h : ∀ c ∈ xs, UCD.assigned c = true ∧ c ≠ 0x37E) :
     nfcPure allFixed xs = UAX15.nfc xs := nfcPure_fixed_is_uax15 xs h
+
+example : (∀ c ∈ [0x1EAD, 0x10300, 0xAC01], UCD.assigned c = true ∧ c ≠ 0x37E) ∧
+    UAX15.nfc [0x1EAD, 0x10300, 0xAC01] = [0x1EAD, 0x10300, 0xAC01] ∧ UAX15.nfc [0x61, 0x10300] = [0x61, 0x10300] := by decide +kernel
 
 /-- code as it is: the same, when the NFD of the string lies in the BMP; the full statement is false: `nfc_cast_witness` -/
 theorem nfc_is_uax15_partial (xs : List Nat) (h : ∀ c ∈ xs, UCD.assigned c = true ∧ c ≠ 0x37E)
